@@ -1626,27 +1626,34 @@ class AstEval:
             #
             # check other scopes if required by global declarations
             #
-            if self.curr_func and arg.id in self.curr_func.global_names:
-                if arg.id in self.global_sym_table:
-                    return self.global_sym_table[arg.id]
-                raise NameError(f"global name '{arg.id}' is not defined")
+            declared_global = self.curr_func and arg.id in self.curr_func.global_names
             #
-            # now check in our current symbol table, and then some other places
+            # now check in our current symbol table, and then some other places; a name declared
+            # global skips the local scopes (and, like any global, falls back to the builtins)
             #
-            if arg.id in self.sym_table:
-                if isinstance(self.sym_table[arg.id], EvalLocalVar):
-                    return self.sym_table[arg.id].get()
-                return self.sym_table[arg.id]
-            if arg.id in self.local_sym_table:
-                return self.local_sym_table[arg.id]
+            if not declared_global:
+                if arg.id in self.sym_table:
+                    if isinstance(self.sym_table[arg.id], EvalLocalVar):
+                        return self.sym_table[arg.id].get()
+                    return self.sym_table[arg.id]
+                if arg.id in self.local_sym_table:
+                    return self.local_sym_table[arg.id]
+            # a local that is not bound yet hides globals and builtins alike
+            unbound_local = not declared_global and self.curr_func and arg.id in self.curr_func.local_names
             if arg.id in self.global_sym_table:
-                if self.curr_func and arg.id in self.curr_func.local_names:
+                if unbound_local:
                     raise UnboundLocalError(f"local variable '{arg.id}' referenced before assignment")
                 return self.global_sym_table[arg.id]
             if arg.id in BUILTIN_AST_FUNCS_FACTORY:
+                if unbound_local:
+                    raise UnboundLocalError(f"local variable '{arg.id}' referenced before assignment")
                 return BUILTIN_AST_FUNCS_FACTORY[arg.id](self)
             if hasattr(builtins, arg.id) and arg.id not in BUILTIN_EXCLUDE and arg.id[0] != "_":
+                if unbound_local:
+                    raise UnboundLocalError(f"local variable '{arg.id}' referenced before assignment")
                 return getattr(builtins, arg.id)
+            if declared_global:
+                raise NameError(f"global name '{arg.id}' is not defined")
             if Function.get(arg.id):
                 return Function.get(arg.id)
             num_dots = arg.id.count(".")
